@@ -222,3 +222,37 @@ def list_len(v):
 def basename_abspath(p):
     import os
     return os.path.basename(os.path.abspath(p))
+
+
+@native
+def is_bool(v):
+    return isinstance(v, bool)
+
+
+@native
+def flatten(v):
+    return [x for sub in v for x in sub]
+
+
+@native
+def join_map(prefix, urls):
+    from urllib.parse import quote_plus as q
+    return "".join(prefix + q(u) for u in urls)
+
+
+@native
+def quote_plus(s):
+    from urllib.parse import quote_plus as q
+    return q(s)
+
+
+@native
+def sha1hex(b):
+    import hashlib
+    return hashlib.sha1(bytes(b)).hexdigest()
+
+
+@native
+def sha256hex(b):
+    import hashlib
+    return hashlib.sha256(bytes(b)).hexdigest()
